@@ -5,6 +5,7 @@
 package rtp
 
 import (
+	"errors"
 	"fmt"
 	"time"
 
@@ -97,17 +98,23 @@ func (h264dp *h264Depacketizer) depacketizeStapa(packet *Packet) (err error) {
 	// 循环读取被封装的NAL
 	for {
 		// nal长度
+		if off+2 > len(payload) {
+			return errors.New("STAP-A: truncated NAL size field")
+		}
 		nalSize := ((uint16(payload[off])) << 8) | uint16(payload[off+1])
 		if nalSize < 1 {
 			return
 		}
 
 		off += 2
+		if off+int(nalSize) > len(payload) {
+			return errors.New("STAP-A: NAL size exceeds the payload")
+		}
 		frame := &codec.Frame{
 			MediaType: codec.MediaTypeVideo,
 			Payload:   make([]byte, nalSize),
 		}
-		copy(frame.Payload, payload[off:])
+		copy(frame.Payload, payload[off:off+int(nalSize)])
 		if err = h264dp.writeFrame(packet.Timestamp, frame); err != nil {
 			return
 		}
